@@ -818,6 +818,8 @@ class Interp(object):
             return self.call_func(f, args, kwargs, site)
         if isinstance(f, BoundBuiltin):
             return self.call_builtin(f, args, kwargs)
+        if isinstance(f, Sym) and f.name.endswith('namedtuple') and args and isinstance(args[0], str):
+            return Ctor('nt:' + args[0])
         if isinstance(f, Node):
             # calling an un-named construct factory result, e.g. ULEB128 partially applied: not used
             return Unknown('call of node')
